@@ -211,6 +211,7 @@ class ModelBuild:
         self.stack = []             # current Rec chain
         self.finished = False
         self.pending = {}
+        self.served_outputs = []    # output paths kept from the previous build
 
     # ------------------------------------------------------------------
     # virtual view
@@ -402,6 +403,7 @@ class ModelBuild:
                     st.inprog.discard(s.path)
                     n = self.T_pre.get(s.path)
                     st.V.put(s.path, ('f', n[1], n[2]))
+                    self._replayed_outputs.append(s.path)
                 else:
                     self._fail_file(st, s.path)
         return None
@@ -425,9 +427,13 @@ class ModelBuild:
             if not self._intact(rec):
                 return None, 'output changed'
         st = self.st.fork()
+        self._replayed_outputs = []
         why = self._replay_subs(rec, st)
         if why:
             return None, why
+        self.served_outputs.extend(self._replayed_outputs)
+        if is_file:
+            self.served_outputs.append(rec.path)
         return rec, st
 
     # ------------------------------------------------------------------
